@@ -456,8 +456,10 @@ func (d *Descriptor) readAsJSON(out Outputter, data []byte) (n int, err error) {
 
 func (d *Descriptor) readJSONObjectKV(out Outputter, data []byte) (n int, err error) {
 	var (
-		jType  jsonType
-		offset int
+		jType     jsonType
+		offset    int
+		haveType  bool
+		haveValue bool
 	)
 
 	for offset < len(data) {
@@ -491,8 +493,10 @@ func (d *Descriptor) readJSONObjectKV(out Outputter, data []byte) (n int, err er
 				return 0, fmt.Errorf("invalid map type field")
 			}
 			jType = jsonType(v)
+			haveType = true
 			offset += n
 		case 3:
+			haveValue = true
 			switch jType {
 			case jsonTypeString:
 				l, n := plenccore.ReadVarUint(data[offset:])
@@ -577,6 +581,11 @@ func (d *Descriptor) readJSONObjectKV(out Outputter, data []byte) (n int, err er
 		default:
 			return 0, fmt.Errorf("unexpected json field index %d", index)
 		}
+	}
+
+	if haveType && jType == jsonTypeNil && !haveValue {
+		// nil has a type but no value field
+		out.Raw("null")
 	}
 
 	return offset, nil
